@@ -30,6 +30,11 @@ TV      (a) every rendering is sent back as {text, abstract lines} and Present!L
         line end): per-line events judged by Zone.tla (RDATA opaque: the octets of the record parsed alone); dns.NewRR of the
         single record with and without final line end and dns.ReadRR of the zone checked by the harness.
 
+        The same mode also spells every RDATA item that is the value of a field the library tags as a domain name (34 fields
+        of 28+ types: SOA mbox, MINFO / RP / PX / TALINK both, NAPTR replacement, SRV / KX / RT / AFSDB / LP targets, RRSIG signer,
+        NSEC next, HIP rendezvous, IPSECKEY / AMTRELAY gateways, SVCB target ...) relative under $ORIGIN <parent> and as @
+        under $ORIGIN <the name>: same record as the absolute spelling (seeded C06-14: zone/rr:rdata-name:SOA:2:relative).
+
 Mutants (checks/mutants/C06/*.diff; `cp -r /repo /tmp/zone-x && git -C /tmp/zone-x apply <diff> &&
 VERIF_REPO=/tmp/zone-x bin/check C06 quick` -> exit 1, seed 1):
   generate-ignores-inherited-ttl  re-introduces the defect repaired in /repo 4d32f83 ($GENERATE sub-parser starts at 3600)
@@ -290,6 +295,9 @@ def follow_keys(evs, bad, failed_single):
     for i in sorted(bad):
         e = evs[i - 1]
         f = e.get("fam", "").split("|")
+        if e.get("ev") == "line" and len(f) == 4 and f[0] == "relname":     # relname|relative or at|TYPE|index of the RDATA item
+            out.setdefault("zone/rr:rdata-name:%s:%s:%s" % (f[2], f[3], f[1]), e)
+            continue
         if e.get("ev") != "line" or len(f) != 5:
             out.setdefault("zone/trace:" + e.get("ev", "?"), e)
             continue
